@@ -36,7 +36,8 @@ NEGS = {
             "NEG_C11_MapAppliedToErr.cfg": ["I_C11_ResultIsEval", "I_C11_MapperOnceOnMatchingVariant"],
             "NEG_C11_MapErrAppliedTwice.cfg": ["I_C11_ResultIsEval", "I_C11_MapperOnceOnMatchingVariant"],
             "NEG_C11_FactoryBuildsTwice.cfg": ["I_C11_FactoryBuildsEachOnceWithCfg"],
-            "NEG_C11_FirstInitErrorSwallowed.cfg": ["I_C11_FirstInitErrorWins"]},
+            "NEG_C11_FirstInitErrorSwallowed.cfg": ["I_C11_FirstInitErrorWins"],
+            "NEG_C11_AndThenFactorySequential.cfg": ["I_C11_FirstInitErrorWins"]},
     "C12": {"NEG_C12_AndThenReadyShortCircuit.cfg": ["I_C12_PendingPolledAllWithCurrentWaker"],
             "NEG_C12_RepollAfterComplete.cfg": ["I_C12_NoPollAfterCompletion"],
             "NEG_C12_MapErrAppliedTwice.cfg": ["I_C12_ReadyErrPropagates"]},
